@@ -115,6 +115,18 @@ def c11_model(seed, nns=None):
                 not any(p['name'] == 'Weight' for p in c['props']):
             c['props'].append({'name': 'Weight', 'type': 'uint16',
                                'key': False, 'array': False})
+        if c['assoc'] and not c['super'] and \
+                not any(p['type'] == 'reference' and not p.get('key')
+                        for p in c['props']):
+            # ... and a non-key reference (the only kind ModifyInstance may
+            # retarget)
+            roots = [x['name'] for x in model['classes']
+                     if not x['assoc'] and not x['super']]
+            name = 'Third' if not any(p['name'] == 'Third'
+                                      for p in c['props']) else 'Fourth'
+            c['props'].append({'name': name, 'type': 'reference',
+                               'key': False, 'array': False,
+                               'ref': roots[0]})
     model['seed'] = 'c11-%s-%s' % (seed, nns)
     return model
 
@@ -614,6 +626,26 @@ def execute(plan):
                     gone.properties[pn].value = tgt
                     single('ModifyInstance', 'assoc_end_missing',
                            lambda c, gone=gone: c.ModifyInstance(gone))
+                    # retarget to an existing instance in a namespace where
+                    # the association has no copy yet
+                    named = {v2.value.namespace.lower()
+                             for v2 in inst.properties.values()
+                             if v2.type == 'reference' and
+                             v2.value is not None and v2.value.namespace}
+                    named.add(inst.path.namespace.lower())
+                    refcls = pv.reference_class or pv.value.classname
+                    far = [x.path for x in allinst
+                           if x.path.namespace.lower() not in named and
+                           x.classname in st.cmap and
+                           mg.is_subclass(st.cmap, x.classname, refcls)]
+                    if far:
+                        moved = copy.deepcopy(inst)
+                        tp = far[0].copy()
+                        tp.host = None
+                        moved.properties[pn].value = tp
+                        single('ModifyInstance', 'assoc_retarget_no_copy',
+                               lambda c, moved=moved: c.ModifyInstance(
+                                   moved))
                 if 'Weight' not in inst.properties and \
                         'Weight' in [p['name'] for p in mg.all_props(
                             st.cmap, inst.classname)]:
@@ -751,6 +783,24 @@ def execute(plan):
                     icase('CreateInstance(CIM_Namespace)', 'missing_key',
                           lambda c, ni=ni: c.CreateInstance(
                               ni, namespace='interop'))
+            # DeleteClass of a class one of whose instances may not be
+            # deleted (the provider rejects the Interop namespace itself)
+            icase('DeleteClass(CIM_Namespace)', 'instance_not_deletable',
+                  lambda c: c.DeleteClass('CIM_Namespace',
+                                          namespace='interop'))
+            # a compile whose first production creates a namespace (through
+            # the CIM_Namespace provider) and whose second production fails
+            ni = CIMInstance(proto.classname, properties=copy.deepcopy(
+                list(proto.properties.values())))
+            ni['Name'] = 'root/viacompile'
+            ni.path = None
+            for tail, reason in (('\n this is not mof ;\n', 'parse_error'),
+                                 ('\ninstance of NoSuchClass { k = 1; };\n',
+                                  'unknown_class')):
+                mof = ni.tomof() + tail
+                icase('compile_mof_string(namespace instance first)', reason,
+                      lambda c, mof=mof: c.compile_mof_string(
+                          mof, namespace='interop'))
             for x in nsinsts:
                 if x['Name'] == 'root/userns':
                     icase('DeleteInstance(CIM_Namespace)', 'not_empty',
